@@ -121,6 +121,29 @@ impl Part for RandomImages {
         let mode = if c.compressed { Mode::Compressed } else { Mode::Uncompressed };
         let inst = image::from_tape(p, &mode, &c.tape, true);
         judge_inst(&inst, &mode, "c02")?;
+        // the layout must not depend on the reader: the public BinRead entry point, given readers that deliver 1 / 3,2 / 7 bytes
+        // per call, yields the packet it yields from a slice
+        {
+            use insim_core::binrw::BinRead;
+            let body = &inst.image[1..];
+            let whole = guard(|| insim::Packet::read(&mut std::io::Cursor::new(body)).map(|p| format!("{p:?}")).map_err(|_| ())).map_err(|p| Fail::new(format!("c02:panic:{}", inst.variant), p))?;
+            for pattern in [&[1usize][..], &[3, 2], &[7]] {
+                let got = guard(|| {
+                    let mut t = Trickle::new(body, pattern);
+                    insim::Packet::read(&mut t).map(|p| format!("{p:?}")).map_err(|_| ())
+                })
+                .map_err(|p| Fail::new(format!("c02:panic:{}", inst.variant), p))?;
+                ensure!(
+                    got == whole,
+                    format!("c02:layout-depends-on-the-reader:{}", inst.variant),
+                    "{} frame {}: from a slice {}, from a reader delivering {pattern:?} bytes per call {}",
+                    inst.variant,
+                    hex(&inst.image[..inst.image.len().min(48)]),
+                    whole.as_ref().map(|s| s.chars().take(200).collect::<String>()).unwrap_or("rejected".into()),
+                    got.as_ref().map(|s| s.chars().take(200).collect::<String>()).unwrap_or("rejected".into())
+                );
+            }
+        }
         if inst.image[3..].iter().any(|b| *b != 0) {
             ev.nontrivial(&inst.image);
         }
